@@ -1,7 +1,7 @@
 """C04 - checkpoint save / load of the JSON-CSV-HDF5 back-end under contract, over a ghost model of the checkpoint
 folder (`ghost.disk`, see pyvc/lib_fs.py).  The property's "whatever the saving folder held before" is the unknown
 initial content of the ghost disk."""
-from pyvc.api import contract, disk_schema, ghost_function, ghost_var, klass, loop_invariant
+from pyvc.api import F, contract, disk_schema, ghost_function, ghost_var, klass, loop_invariant
 
 JP = "black_it/utils/json_pandas_checkpointing.py"
 
@@ -211,7 +211,8 @@ def of_self(clause):
     return _re.sub(r"(?<![\w'.])(" + "|".join(sorted(_SRC, key=len, reverse=True)) + r")(?![\w'])", sub, clause)
 
 
-CKPT_ENSURES = [of_self(e) for e in SAVE_ENSURES]
+# (facet "disk": these quantified clauses are verified - and assumed by callers - in a pass of their own)
+CKPT_ENSURES = [F("disk", of_self(e)) for e in SAVE_ENSURES]
 _CKPT_PREFIX = of_self(_PREFIX)
 contract(f"{CA}::Calibrator.create_checkpoint", params={"file_name": "any"}, props=["C04", "C14"],
          defs={"_same_run_prefix": ([], _CKPT_PREFIX)}, labels=_LABELS,
@@ -230,11 +231,11 @@ _CORE_KEYS = ("'current_batch_index'", "'n_sampled_params'", "'random_generator_
               "loss_function_pickled", "'losses_samp'", "'batch_num_samp'", "'method_samp'", "params_samp_")
 CKPT_CORE = [e for e in CKPT_ENSURES if any(k in e for k in _CORE_KEYS)]
 _cal = REG["contracts"][f"{CA}::Calibrator.calibrate"]
-_cal.ensures += [f"implies(self.saving_folder is not None and self.current_batch_index - old(self.current_batch_index) >= 1, {e})"
+_cal.ensures += [F("disk", f"implies(self.saving_folder is not None and self.current_batch_index - old(self.current_batch_index) >= 1, {e})")
                  for e in CKPT_CORE]
 _cal.modifies.append("ghost.disk")
 REG["invariants"][(f"{CA}::Calibrator.calibrate", 1)].inv += [
-    f"implies(self.saving_folder is not None and b >= 1, {e})" for e in CKPT_CORE]
+    F("disk", f"implies(self.saving_folder is not None and b >= 1, {e})") for e in CKPT_CORE]
 
 
 # ---- Calibrator.restore_from_checkpoint: the calibrator built from the folder IS the folder's state ------------------
@@ -291,13 +292,13 @@ _SERIES_EQ = ("result.series_samp.shape[0] == cal.series_samp.shape[0] and foral
               "forall(range(0, cal.series_samp.shape[1]), lambda e: forall(range(0, cal.series_samp.shape[2]), lambda t: "
               "forall(range(0, cal.series_samp.shape[3]), lambda q: result.series_samp[i, e, t, q] == cal.series_samp[i, e, t, q]))))")
 contract(_CRT, params={"cal": "obj:Calibrator", "folder": "opaque", "model": "opaque"}, returns="obj:Calibrator",
-         props=["C04"],
+         props=["C04"], only_facet="disk",
          requires=[_c(x) for x in REG["classes"]["Calibrator"].invariant] + [
              "cal.real_data.shape[0] >= 1 and cal.param_grid.dims >= 1 and len(cal.param_grid.parameters_precision) == cal.param_grid.dims",
              "len(cal.scheduler.samplers) >= 1"],
          defs={"_same_run_prefix": ([], _c(_CKPT_PREFIX))},
          may_raise=["SearchSpaceError", "ValueError", "AssertionError", "Exception"],
-         ensures=[f"result.{k} == cal.{k}" for k in _EQ_SCALAR]
+         ensures=[F("disk", x) for x in ([f"result.{k} == cal.{k}" for k in _EQ_SCALAR]
          + [f"(result.{k} is None) == (cal.{k} is None) and implies(cal.{k} is not None, result.{k} == cal.{k})" for k in _EQ_OPT]
          + ["result.scheduler is cal.scheduler and result.loss_function is cal.loss_function and result.model is model",
             "result.random_generator.state == cal.random_generator.state"]
@@ -311,7 +312,7 @@ contract(_CRT, params={"cal": "obj:Calibrator", "folder": "opaque", "model": "op
             "len(result.param_grid.parameters_precision) == len(cal.param_grid.parameters_precision) and "
             "forall(range(0, len(cal.param_grid.parameters_precision)), lambda q: "
             "result.param_grid.parameters_precision[q] == cal.param_grid.parameters_precision[q])",
-            f"implies(not old(disk_exists('{_H}')), {_SERIES_EQ})", f"implies(_same_run_prefix(), {_SERIES_EQ})"],
+            f"implies(not old(disk_exists('{_H}')), {_SERIES_EQ})", f"implies(_same_run_prefix(), {_SERIES_EQ})"])],
          modifies=["ghost.disk", "ghost.saved_index", "ghost.saved_n"],
          notes="theorem over the proved contracts of create_checkpoint and restore_from_checkpoint: every component of the "
                "observable state comes back; the series only when the folder held no series file or an earlier checkpoint "
